@@ -953,24 +953,39 @@ func (i SmallInt) StrictEqualVal(other Value) Value {
 
 func leftBitshiftSmallInt[T SimpleInt](i SmallInt, other T) Value {
 	var bitsize T = SmallIntBits - 1
-	if other < 0 {
+	if other < 0 || i == 0 {
 		return SmallInt(0).ToValue()
 	}
-	complementaryShift := i >> (bitsize - other)
-	if other > bitsize || (i < 0 && complementaryShift != -1) || (i > 0 && complementaryShift != 0) {
-		// overflow
-		iBig := big.NewInt(int64(i))
-		iBig.Lsh(iBig, uint(other))
-		return Ref(ToElkBigInt(iBig))
+	if other <= bitsize {
+		// the complementary shift may only be computed when
+		// `other <= bitsize`, a negative shift count panics
+		complementaryShift := i >> (bitsize - other)
+		if (i < 0 && complementaryShift == -1) || (i > 0 && complementaryShift == 0) {
+			return (i << other).ToValue()
+		}
 	}
-	return (i << other).ToValue()
+	// overflow
+	iBig := big.NewInt(int64(i))
+	iBig.Lsh(iBig, uint(other))
+	return Ref(ToElkBigInt(iBig))
 }
 
+// `other` is only negative when the negation of the
+// smallest integer of its type wrapped around,
+// it denotes a shift by more bits than a SmallInt has.
 func rightBitshiftSmallInt[T SimpleInt](i SmallInt, other T) Value {
 	if other < 0 {
-		return SmallInt(0).ToValue()
+		return smallIntSignFill(i)
 	}
 	return (i >> other).ToValue()
+}
+
+// Result of shifting `i` to the right by 63 bits or more.
+func smallIntSignFill(i SmallInt) Value {
+	if i < 0 {
+		return SmallInt(-1).ToValue()
+	}
+	return SmallInt(0).ToValue()
 }
 
 // Bitshift to the left by another integer value and return an error
@@ -1034,6 +1049,10 @@ func (i SmallInt) LeftBitshiftBigInt(other *BigInt) Value {
 			return rightBitshiftSmallInt(i, -oSmall)
 		}
 		return leftBitshiftSmallInt(i, oSmall)
+	}
+	if other.ToGoBigInt().Sign() < 0 {
+		// right shift by more than 64 bits
+		return smallIntSignFill(i)
 	}
 	return SmallInt(0).ToValue()
 }
@@ -1159,6 +1178,10 @@ func (i SmallInt) RightBitshiftBigInt(other *BigInt) Value {
 			return leftBitshiftSmallInt(i, -oSmall)
 		}
 		return (i >> oSmall).ToValue()
+	}
+	if other.ToGoBigInt().Sign() > 0 {
+		// right shift by more than 64 bits
+		return smallIntSignFill(i)
 	}
 	return SmallInt(0).ToValue()
 }
